@@ -221,7 +221,7 @@ func checkBatchExpansion(w *core.World, r *core.Report) {
 	}
 	// per case shapes
 	role := map[string]string{"display": "label", "choice": "selector", "target": "symbol"}
-	argRoles := func(v ssa.Value) []string {
+	argRoles := func(v ssa.Value, resolve func(ssa.Value) ssa.Value) []string {
 		sl, ok := v.(*ssa.Slice)
 		if !ok {
 			return nil
@@ -248,9 +248,10 @@ func checkBatchExpansion(w *core.World, r *core.Report) {
 						if !ok {
 							continue
 						}
-						if str, ok := core.ConstString(st.Val); ok {
+						val := resolve(st.Val)
+						if str, ok := core.ConstString(val); ok {
 							els = append(els, el{idx, "'" + str + "'"})
-						} else if _, f, ok := core.LoadedField(st.Val); ok {
+						} else if _, f, ok := core.LoadedField(val); ok {
 							rl := role[f]
 							if rl == "" {
 								rl = f
@@ -271,39 +272,118 @@ func checkBatchExpansion(w *core.World, r *core.Report) {
 		return out
 	}
 	shapes := map[string]batchShape{}
-	caseOf := func(c ssa.CallInstruction) string {
-		// the batch code whose true edge dominates the call, else DOWN (default)
-		for _, b := range tl.Blocks {
-			for _, in := range b.Instrs {
-				bo, ok := in.(*ssa.BinOp)
-				if !ok || bo.Op != token.EQL || core.TypeName(bo.X.Type()) != "asm.BatchCode" {
-					continue
-				}
-				k, _ := core.ConstInt(bo.Y)
-				for _, e := range core.EdgesWhere(bo, true) {
-					if e.To() == c.Block() || e.To().Dominates(c.Block()) {
-						return codeName[fmt.Sprint(k)]
+	// the cases of the switch over the batch code: name -> edges on which the code is that case
+	type caseInfo struct {
+		name  string
+		edges []core.Edge
+	}
+	var cases []caseInfo
+	var cmps []*ssa.BinOp
+	for _, in := range allInstrs(tl) {
+		bo, ok := in.(*ssa.BinOp)
+		if !ok || bo.Op != token.EQL || core.TypeName(bo.X.Type()) != "asm.BatchCode" {
+			continue
+		}
+		k, _ := core.ConstInt(bo.Y)
+		cases = append(cases, caseInfo{codeName[fmt.Sprint(k)], core.EdgesWhere(bo, true)})
+		cmps = append(cmps, bo)
+	}
+	// default (DOWN): the false edge of the comparison that is last in the chain
+	def := caseInfo{name: "DOWN"}
+	for _, bo := range cmps {
+		for _, e := range core.EdgesWhere(bo, false) {
+			more := false
+			for _, in := range e.To().Instrs {
+				for _, other := range cmps {
+					if in == ssa.Instruction(other) {
+						more = true
 					}
 				}
 			}
+			if !more {
+				def.edges = append(def.edges, e)
+			}
 		}
-		return "DOWN"
+	}
+	cases = append(cases, def)
+	inCase := func(k caseInfo, b *ssa.BasicBlock) bool {
+		for _, e := range k.edges {
+			if t := e.To(); len(t.Preds) == 1 && (t == b || t.Dominates(b)) {
+				return true
+			}
+		}
+		return false
+	}
+	predInCase := func(k caseInfo, m *ssa.BasicBlock, i int) bool {
+		p := m.Preds[i]
+		for _, e := range k.edges {
+			t := e.To()
+			if t == m && e.From == p {
+				return true
+			}
+			if len(t.Preds) == 1 && (t == p || t.Dominates(p)) {
+				return true
+			}
+		}
+		return false
+	}
+	// resolve: the value a phi takes when control comes through case k (a switch that only selects
+	// opcode and target, with the instruction built once behind it)
+	resolveIn := func(k caseInfo) func(ssa.Value) ssa.Value {
+		return func(v ssa.Value) ssa.Value {
+			for i := 0; i < 8; i++ {
+				phi, ok := v.(*ssa.Phi)
+				if !ok {
+					return v
+				}
+				idx := -1
+				for j := range phi.Edges {
+					if predInCase(k, phi.Block(), j) {
+						if idx >= 0 {
+							return v
+						}
+						idx = j
+					}
+				}
+				if idx < 0 {
+					return v
+				}
+				v = phi.Edges[idx]
+			}
+			return v
+		}
 	}
 	perCase := map[string]int{}
-	for _, c := range nlCalls {
-		if c.(ssa.Instruction) == ssa.Instruction(haltCall) {
-			continue
+	for _, k := range cases {
+		res := resolveIn(k)
+		for _, c := range nlCalls {
+			if c.(ssa.Instruction) == ssa.Instruction(haltCall) {
+				continue
+			}
+			// the call belongs to this case, or to the part all cases share
+			mine := inCase(k, c.Block())
+			if !mine {
+				shared := true
+				for _, o := range cases {
+					if inCase(o, c.Block()) {
+						shared = false
+					}
+				}
+				if !shared {
+					continue
+				}
+			}
+			cs := k.name
+			perCase[cs]++
+			op, _ := core.ConstInt(res(core.CallArgs(c)[1]))
+			sh := shapes[cs]
+			if core.CallArgs(c)[0] == pre {
+				sh.preOp, sh.preArgs = names[op], argRoles(core.CallArgs(c)[2], res)
+			} else if core.CallArgs(c)[0] == post {
+				sh.postOp, sh.postArgs = names[op], argRoles(core.CallArgs(c)[2], res)
+			}
+			shapes[cs] = sh
 		}
-		cs := caseOf(c)
-		perCase[cs]++
-		op, _ := core.ConstInt(core.CallArgs(c)[1])
-		sh := shapes[cs]
-		if core.CallArgs(c)[0] == pre {
-			sh.preOp, sh.preArgs = names[op], argRoles(core.CallArgs(c)[2])
-		} else if core.CallArgs(c)[0] == post {
-			sh.postOp, sh.postArgs = names[op], argRoles(core.CallArgs(c)[2])
-		}
-		shapes[cs] = sh
 	}
 	for cs, n := range perCase {
 		r.Check(n == 2, "R2", "ToLines case "+cs+": one instruction before and one after HALT", tl.Pos(), "2 NewLine calls", fmt.Sprintf("%d instructions emitted for one %s line", n, cs))
